@@ -1,4 +1,4 @@
-package main
+package kit
 
 import (
 	"crypto/sha256"
@@ -30,7 +30,7 @@ func (r *Rng) Intn(n int) int {
 	}
 	return int(r.U64() % uint64(n))
 }
-func (r *Rng) Bool() bool       { return r.U64()&1 == 1 }
+func (r *Rng) Bool() bool        { return r.U64()&1 == 1 }
 func (r *Rng) Chance(p int) bool { return r.Intn(100) < p } // p percent
 func (r *Rng) Bytes(n int) []byte {
 	b := make([]byte, n)
@@ -65,7 +65,7 @@ func (r *Rng) U64Edge() uint64 {
 
 // ---- Coq term printing
 
-func Z(u uint64) string  { return fmt.Sprintf("%d", u) }
+func Z(u uint64) string { return fmt.Sprintf("%d", u) }
 func ZI(i int64) string {
 	if i < 0 {
 		return fmt.Sprintf("(%d)", i)
@@ -89,7 +89,7 @@ func Str(s string) string {
 	// a literal portably, callers use Bytes for binary data.
 	return "\"" + strings.ReplaceAll(s, "\"", "\"\"") + "\"%string"
 }
-func List(items []string) string { return "[" + strings.Join(items, "; ") + "]" }
+func List(items []string) string   { return "[" + strings.Join(items, "; ") + "]" }
 func Tuple(items ...string) string { return "(" + strings.Join(items, ", ") + ")" }
 func Bytes(b []byte) string {
 	it := make([]string, len(b))
@@ -219,3 +219,38 @@ func (f *Flags) Budget(quick, thorough int) int {
 	}
 	return quick
 }
+
+// ErrClass maps a Go error to the name the Coq model uses: the sentinel's
+// identifier when it is one, else the message text. "" = nil.
+func ErrClass(err error, sentinels map[error]string) string {
+	if err == nil {
+		return ""
+	}
+	if n, ok := sentinels[err]; ok {
+		return n
+	}
+	return err.Error()
+}
+
+// Guard runs f and reports a runtime panic as an observable.
+func Guard(f func()) (panicked bool) {
+	defer func() {
+		if r := recover(); r != nil {
+			panicked = true
+		}
+	}()
+	f()
+	return false
+}
+
+// ResZE prints a `res (Z * error)` value.
+func ResZE(panicked bool, v string, e string) string {
+	if panicked {
+		return "Panic"
+	}
+	return "(Val (" + v + ", " + OptErr(e) + "))"
+}
+
+// Cmds is the sub-command table; per-property packages are registered by the
+// reg_cNN.go files of package main.
+var Cmds = map[string]func(args []string) error{}
